@@ -13,14 +13,14 @@ RRELS = ["~items.subs", "~items.~subs.subs", "items", "^items", "~items.subs,ite
 def configs(chk):
     cfgs = []
     subsets = list(itertools.chain.from_iterable(itertools.combinations(KEYS, n) for n in range(len(KEYS) + 1)))
-    for on in ("A", "B"):
+    for on in ("N", "A", "B"):
         for i, sub in enumerate(subsets):
             keys = list(sub)
             if (i % 3) == 1:
                 keys += chk.rng.sample(DECOYS, 1 + chk.rng.below(3))
             cfgs.append({"keys": keys, "rrel_on": on, "rrel": "^items", "name_a": "x" if on == "A" else "y", "name_b": "x" if on == "B" else "y"})
     if not chk.thorough:   # quick: all subsets for RREL on B, a third for RREL on A
-        cfgs = [c for j, c in enumerate(cfgs) if c["rrel_on"] == "B" or j % 3 == 0]
+        cfgs = [c for j, c in enumerate(cfgs) if c["rrel_on"] == "N" or j % 3 == 0]
     return cfgs
 
 
@@ -41,7 +41,7 @@ def run(chk):
     for c in cfgs:
         regs = core.coq_list([core.coq_str(k) for k in c["keys"]])
         for (cls, attr, n) in REFS:
-            has_rrel = (cls == "RefA") == (c["rrel_on"] == "A")
+            has_rrel = cls[-1] == c["rrel_on"]
             exprs.append("show_choice (select %s %s %s %s)" % (regs, core.coq_str(cls), core.coq_str(attr), core.coq_bool(has_rrel)))
             index.append((c, cls, attr, n, has_rrel))
     imports = ("From TxV Require Import Core.Base Core.Show Model.ScopeDefs Gen.SrcScope Model.Scope.\n"
@@ -105,7 +105,7 @@ def run(chk):
             failures.append({"case": {"rrel": g["rrel"]}, "impl": {"grammar": og, "string": os_},
                              "what": "registered RREL string behaves differently from the grammar RREL", "tags": []})
     chk.sample({"rrel_string_vs_grammar": RRELS})
-    chk.cov["rule"] = ("all %d subsets of the 8 registration keys relevant to rules RefA/RefB (a third with decoy keys), grammar RREL on rule A or B, "
+    chk.cov["rule"] = ("all %d subsets of the 8 registration keys relevant to rules RefA/RefB (a third with decoy keys), grammar RREL on rule A, on rule B or on neither, "
                        "single and list attributes; distinct = distinct (key set, RREL placement); plus %d RREL strings registered vs written in the grammar" % (2 ** len(KEYS), len(RRELS)))
     chk.cov["exhaustive"] = bool(chk.thorough)
     chk.assumptions += ["translator tools/translate/scope_tr.py (fail-closed ast match of resolve_one_step, register_scope_providers, RuleCrossRef.__init__, create_rrel_scope_provider)",
